@@ -441,6 +441,9 @@ def gen_case(rng, malformed):
             o_int = c
             o_list[k] = c
             kind = "valid"
+    if rng.random() < 0.4:  # label codes beyond 0/1 (e.g. the 0..7 codes of the repo's own test data): only code 1 means stable
+        codes = rng.integers(2, 8, size=Lab.shape)
+        Lab = np.where((Lab == 0) & (rng.random(Lab.shape) < 0.6), codes, Lab)
     if malformed:
         kind = str(rng.choice(["unsorted", "overlap", "nan-column", "order-out-of-range", "short-list", "duplicate-request"]))
         if kind == "unsorted":
@@ -490,7 +493,7 @@ def raw_call(routine, W, freq, order, cov, rtol, deltaf):
             kw.update(Fn_cov=W["Fn_cov"], Xi_cov=W["Xi_cov"], Phi_cov=W["Phi_cov"])
         out, err = call(ssi.SSI_mpe, fr, W["Fn"], W["Xi"], W["Phi"], od, **kw)
     else:
-        out, err = call(plscf.pLSCF_mpe, fr, W["Fn"], W["Xi"], W["Phi"], od, Lab=W["Lab"], deltaf=deltaf, rtol=rtol)
+        out, err = call(plscf.pLSCF_mpe, fr, W["Fn"], W["Xi"], W["Phi"], od, Lab=W.get("LabP", W["Lab"]), deltaf=deltaf, rtol=rtol)
     args_changed = ([] if fr == list(freq) else ["sel_freq"]) + ([] if od == order else ["order"])
     return out, err, args_changed
 
@@ -526,7 +529,7 @@ class Runner:
 
     def icall(self, site, routine, order, cov, P, freq, rtol, deltaf, case, lab=None, record=True):
         """One implementation call on private copies of every array argument; oracle clause: the arguments are unchanged."""
-        Q = P if lab is None else dict(P, Lab=lab)
+        Q = P if lab is None else dict(P, **{("LabP" if routine == "plscf" else "Lab"): lab})
         W = fresh(Q)
         out, err, ach = raw_call(routine, W, freq, order, cov, rtol, deltaf)
         ch = changed(W, Q) + ach
@@ -599,7 +602,11 @@ class Runner:
         freq = [float(f) for f in case["freq"]]
         rtol, deltaf = float(case["rtol"]), float(case.get("deltaf", 0.05))
         tabs = payload(n, m)
-        P = dict(tabs, Fn=Fn, Lab=Lab)  # pristine tables: the implementation only ever gets copies
+        # label codes beyond 0/1 are legal input (stable = exactly 1).  pLSCF_mpe gets the same table with code 7 written as 6, because the
+        # present pLSCF code reads 7 as "stable" (the known finding): its attribution must not depend on which other codes occur
+        LabP = np.where(Lab == 7, 6, Lab)
+        P = dict(tabs, Fn=Fn, Lab=Lab, LabP=LabP)  # pristine tables: the implementation only ever gets copies
+        ctx.hist("label codes", "0/1 only" if set(np.unique(Lab)) <= {0, 1} else "0..7")
         self._specs = []
         dom = in_domain(dict(case, deltaf=deltaf)) and case.get("kind", "valid") in ("valid", "corpus")
         nontriv = bool(np.isnan(Fn).any() and n > 1 and m > 1)
@@ -607,8 +614,8 @@ class Runner:
         ctx.hist("shape", "%dx%d" % (n, m))
         ctx.hist("requests", len(freq))
         ctx.sample(case)
-        let = "let Fn := %s in let Lab := %s in let Pay := id_tab %d %d in let fr := %s in let rt := %s in let df := %s in " % (
-            coq_tab(Fn), coq_lab(Lab), n, m, coq_freq(freq), coq_q(rtol), coq_q(deltaf))
+        let = "let Fn := %s in let Lab := %s in let LabP := %s in let Pay := id_tab %d %d in let fr := %s in let rt := %s in let df := %s in " % (
+            coq_tab(Fn), coq_lab(Lab), coq_lab(np.where(Lab == 7, 6, Lab)), n, m, coq_freq(freq), coq_q(rtol), coq_q(deltaf))
         parts, metas = [], []
         # ---- explicit orders (the same model function for SSI_mpe and pLSCF_mpe)
         for oname in ("int", "list"):
@@ -660,11 +667,11 @@ class Runner:
             runs.append((site, impl, "find_min"))
         metas.append(("ssi_find_min", runs))
         # ---- find_min, pLSCF: the present code (Lab == 7) on the table as labelled (0/1) and with stable relabelled 7
-        parts.append("showPresent (plscf_find_min_present Fn Pay Lab fr df rt)")
-        parts.append("showPresent (plscf_find_min_lab 1%Z Fn Pay Lab fr df rt)")
-        jd = judged_findmin(Fn, Lab, 1, freq, deltaf, True, rtol)
+        parts.append("showPresent (plscf_find_min_present Fn Pay LabP fr df rt)")
+        parts.append("showPresent (plscf_find_min_lab 1%Z Fn Pay LabP fr df rt)")
+        jd = judged_findmin(Fn, LabP, 1, freq, deltaf, True, rtol)
         runs = []
-        for lname, L in (("0/1", Lab), ("7", np.where(Lab == 1, 7, Lab))):
+        for lname, L in (("0/1", LabP), ("7", np.where(LabP == 1, 7, LabP))):
             out, err = self.icall("pLSCF_mpe", "plscf", "find_min", False, P, freq, rtol, deltaf, case, lab=(None if lname == "0/1" else L), record=(lname == "0/1"))
             ctx.count(dict(case, site="pLSCF_mpe", order="find_min", labels=lname), nontrivial=nontriv)
             ctx.hist("order", "pLSCF_mpe:find_min(labels %s)" % lname)
@@ -687,7 +694,7 @@ class Runner:
                     ctx.hist("oracle", "plscf find_min:" + ("not-judged" if res == "skip" else "holds (no qualifying order)"))
         metas.append(("plscf_find_min", runs))
         # ---- the conforming pLSCF function against the oracle's expectation (ties the proved spec to the property text)
-        parts.append("showRes (plscf_find_min_conforming Fn Pay Lab fr df rt)")
+        parts.append("showRes (plscf_find_min_conforming Fn Pay LabP fr df rt)")
         exp = None
         if dom and jd:
             e = [oracle_findmin_expect(Fn, Lab, 1, freq, deltaf, True, rtol, rd) for rd in ("close", "band", "count")]
@@ -799,22 +806,44 @@ class ClassRunner(Runner):
     def run_classes(self):
         ctx = self.ctx
         rng = ctx.np_rng
-        from pyoma2.algorithms import SSIcov, SSIdat, pLSCF
-        from pyoma2.setup import SingleSetup
+        from pyoma2.algorithms import SSIcov, SSIcov_MS, SSIdat, pLSCF
+        from pyoma2.setup import MultiSetup_PreGER, SingleSetup
 
         nsets = ctx.n(1, 3)
         for s in range(nsets):
             data, fns = simulate(rng)
+            data2, _ = simulate(rng)
             ss = SingleSetup(data, fs=20.0)
-            algs = [("SSIcov", SSIcov(name="SSIcov", br=8, ordmax=10)),
-                    ("SSIcov_unc", SSIcov(name="SSIcov_unc", br=8, ordmax=10, calc_unc=True, nb=6)),
-                    ("SSIdat", SSIdat(name="SSIdat", br=8, ordmax=10)),
-                    ("pLSCF", pLSCF(name="pLSCF", ordmax=8, nxseg=256))]
-            ss.add_algorithms(*[a for _, a in algs])
-            for name, alg in algs:
-                ss.run_by_name(name)
+            ms = MultiSetup_PreGER(fs=20.0, ref_ind=[[0, 1], [0, 1]], datasets=[data, data2])
+            # run parameter ordmin in {0, 2, 4, 6}: the tables keep ALL orders (ordmin only affects the labels), so result.order_out
+            # is a column index of the full table whatever ordmin is
+            om = [0, 2, 4, 6] if s % 2 == 0 else [4, 0, 6, 2]
+            algs = [("SSIcov", ss, SSIcov(name="SSIcov", br=8, ordmax=10, ordmin=om[0]), om[0]),
+                    ("SSIcov_unc", ss, SSIcov(name="SSIcov_unc", br=8, ordmax=10, ordmin=om[1], calc_unc=True, nb=6), om[1]),
+                    ("SSIdat", ss, SSIdat(name="SSIdat", br=8, ordmax=10, ordmin=om[2]), om[2]),
+                    ("SSIcov_MS", ms, SSIcov_MS(name="SSIcov_MS", br=8, ordmax=10, ordmin=om[3]), om[3]),
+                    ("pLSCF", ss, pLSCF(name="pLSCF", ordmax=8, nxseg=256), 0)]
+            if s == 0:
+                for k, cc in enumerate(self.class_corpus):
+                    cls = dict(SSIcov=SSIcov, SSIdat=SSIdat, SSIcov_MS=SSIcov_MS)[cc["cls"]]
+                    algs.append(("%s" % cc["cls"], ms if cc["cls"].endswith("_MS") else ss,
+                                 cls(name="corpus%d" % k, br=8, ordmax=10, ordmin=int(cc["ordmin"])), int(cc["ordmin"]), cc))
+            ss.add_algorithms(*[a[2] for a in algs if a[1] is ss])
+            ms.add_algorithms(*[a[2] for a in algs if a[1] is ms])
+            for ent in algs:
+                name, setup, alg, ordmin = ent[:4]
+                setup.run_by_name(alg.name)
+                ctx.hist("class ordmin", "%s ordmin=%d" % (name, ordmin))
                 is_ssi = name != "pLSCF"
                 has_cov = name == "SSIcov_unc"
+                if len(ent) == 5:  # corpus case: its table injected into a freshly run object with that ordmin
+                    cc = ent[4]
+                    Fn = nan_tab(cc["Fn"])
+                    tb = payload(*Fn.shape)
+                    tb.update(Fn=Fn, Lab=np.array(cc["Lab"], dtype=int), Fn_cov=None, Xi_cov=None, Phi_cov=None)
+                    self.class_case(setup, name, alg, True, False, tb, dict(kind="corpus", freq=cc["freq"], rtol=cc["rtol"], o_int=cc["o_int"], o_list=cc["o_list"]),
+                                    extra=dict(ordmin=ordmin, note=cc.get("note", "")))
+                    continue
                 real = self.tables_of(alg.result, has_cov)
                 # (a) the algorithm's own tables; (b) synthetic tables put into the result object (exercises the glue with unique payloads)
                 variants = [("own", real)]
@@ -822,7 +851,12 @@ class ClassRunner(Runner):
                     case = gen_case(rng, False)
                     Fn = nan_tab(case["Fn"])
                     tb = payload(*Fn.shape)
-                    tb.update(Fn=Fn, Lab=np.array(case["Lab"], dtype=int))
+                    L = np.array(case["Lab"], dtype=int)
+                    if not is_ssi:
+                        L = np.where(L == 7, 6, L)  # see add_case: code 7 is what the present pLSCF code reads as stable
+                    elif ordmin and rng.random() < 0.5:
+                        L[:, :ordmin] = 0  # as a run with this ordmin would label: nothing stable below ordmin
+                    tb.update(Fn=Fn, Lab=L)
                     if not has_cov:
                         tb.update(Fn_cov=None, Xi_cov=None, Phi_cov=None)
                     variants.append((case, tb))
@@ -844,7 +878,7 @@ class ClassRunner(Runner):
                     else:
                         reqs = [dict(kind="injected", freq=tag["freq"], rtol=tag["rtol"], o_int=tag["o_int"], o_list=tag["o_list"])]
                     for rq in reqs:
-                        self.class_case(ss, name, alg, is_ssi, has_cov, tb, rq)
+                        self.class_case(setup, name, alg, is_ssi, has_cov, tb, rq, extra=dict(ordmin=ordmin))
 
     @staticmethod
     def tables_of(res, has_cov):
@@ -862,14 +896,14 @@ class ClassRunner(Runner):
         if is_ssi:
             res.Fn_poles_cov, res.Xi_poles_cov, res.Phi_poles_cov = tb["Fn_cov"], tb["Xi_cov"], tb["Phi_cov"]
 
-    def class_case(self, ss, name, alg, is_ssi, has_cov, tb, rq):
+    def class_case(self, ss, name, alg, is_ssi, has_cov, tb, rq, extra=None):
         ctx = self.ctx
         Fn, Lab = tb["Fn"], tb["Lab"]
         n, m = Fn.shape
         freq, rtol = rq["freq"], rq["rtol"]
         tabs = {k: v for k, v in tb.items() if k in ("Xi", "Phi", "Fn_cov", "Xi_cov", "Phi_cov") and v is not None}
         case = dict(kind="class-" + rq["kind"], cls=name, Fn=tab_json(Fn), Lab=Lab.tolist(), freq=freq, rtol=rtol,
-                    o_int=rq["o_int"], o_list=rq["o_list"], deltaf=0.05)
+                    o_int=rq["o_int"], o_list=rq["o_list"], deltaf=0.05, **(extra or {}))
         dom = in_domain(case)
         let = "let Fn := %s in let Lab := %s in let Pay := id_tab %d %d in let fr := %s in let rt := %s in let df := %s in " % (
             coq_tab(Fn), coq_lab(Lab), n, m, coq_freq(freq), coq_q(rtol), coq_q(0.05))
@@ -887,7 +921,7 @@ class ClassRunner(Runner):
                 order, cols = "find_min", None
                 expr = "showRes (ssi_mpe Fn Pay Lab fr FindMin rt)" if is_ssi else "showPresent (plscf_find_min_present Fn Pay Lab fr df rt)"
             self.set_tables(alg.result, fresh(tb), is_ssi)  # private copies of the result tables for this call
-            out, err = self.class_mpe(ss, name, alg, is_ssi, freq, order, rtol)
+            out, err = self.class_mpe(ss, alg.name, alg, is_ssi, freq, order, rtol)
             ch = changed(self.cur_tables(alg.result, is_ssi), {k: v for k, v in tb.items() if is_ssi or not k.endswith("_cov")})
             if ch:
                 ctx.fail("oracle", "%s.mpe(order=%s) modified the result tables %s in place (a later mpe on the same object then sees other poles)"
@@ -937,7 +971,7 @@ class ClassRunner(Runner):
         self.set_tables(alg.result, fresh(tb), is_ssi)
         done = []
         for order, ref in seq:
-            got = self.class_mpe(ss, name, alg, is_ssi, freq, order, rtol)
+            got = self.class_mpe(ss, alg.name, alg, is_ssi, freq, order, rtol)
             ctx.count(dict(case, order=order, after=list(done)), nontrivial=True)
             ctx.hist("sequence", "%s.mpe call %d on the same object" % (name, min(len(done) + 1, 9)))
             if not same_out(got, ref):
@@ -998,15 +1032,20 @@ def run(ctx):
         R.finish()
         return
     # corpus first (failing inputs of repaired defects)
+    class_corpus = []
     skip_corpus = os.environ.get("VERIF_C11_SKIP_CORPUS") == "1"  # testing aid only: shows what the generator alone finds
     for path in ([] if skip_corpus else sorted(glob.glob(os.path.join(VERIF, "corpus", "C11", "*.json")))):
         case = json.load(open(path))
         case.setdefault("kind", "corpus")
+        if "cls" in case:  # class-level corpus case: run by the ClassRunner below
+            class_corpus.append(case)
+            continue
         R.add_case(case, src=os.path.basename(path))
     for k in range(ctx.n(130, 1500)):
         R.add_case(gen_case(ctx.np_rng, malformed=(k % 7 == 3)))
     R.finish()
     C = ClassRunner(ctx)
     C.lab7 = R.lab7
+    C.class_corpus = class_corpus
     C.run_classes()
     C.finish_classes()
